@@ -189,6 +189,11 @@ class FormatterFactory:
         record = logging.LogRecord(__name__, logging.INFO, __file__,
                                    42, 'some message', (), None)
         record.__dict__.update(_log_format_variables)
+        if getattr(record, "taskName", None) is not None:
+            # The configuration is being loaded inside an asyncio task;
+            # the records the formatter will see mostly come from
+            # elsewhere and carry no task name.
+            record.taskName = None
         if section.arbitrary_fields:
             fields = AnyFieldDict()
             fields.update(record.__dict__)
